@@ -18,7 +18,7 @@ OFP_CONTENT = b""
 ADV_INFO = {}
 CMODES = [("usingDict", "-"), ("usingCDict", "-"), ("compress2", "load"), ("compress2", "loadref"), ("compress2", "cdict"),
           ("compress2", "cdictref"), ("compress2", "prefix")]
-DMODES = ["usingDict", "ddict", "ddictref", "loaddict", "multiddict"]
+DMODES = ["usingDict", "ddict", "ddictref", "loaddict", "multiddict", "multiddict2"]
 
 
 def rand_norm(rng, nsyms_max, logmax, logmin=5, full=False):
